@@ -282,6 +282,9 @@ def order_guards(b, aliases):
         if re.search(r"TryFrom<.*>>::try_from$|TryInto<.*>>::try_into$|::clamp$|::max$|::min$|::checked_\w+$|::rem_euclid$", cal):
             if any(op_local(a) in aliases for a in t["args"]):
                 out.append((bb, "%s at line %s" % (cal.rsplit("::", 1)[1], t["ln"])))
+        if re.search(r"cmp::(Ord|PartialOrd)(<.*>)?>::(cmp|partial_cmp)$", cal) or re.search(r"cmp::impls::<impl (std|core)::cmp::(Ord|PartialOrd)(<.*>)? for [iu](8|16|32|64|128|size)>::(cmp|partial_cmp)$", cal):
+            if any(op_local(a) in aliases for a in t["args"]):
+                out.append((bb, "three-way comparison %s() at line %s" % (cal.rsplit("::", 1)[1], t["ln"])))
     # integer range patterns lower to comparisons as well; discriminant-style switches on the value itself only test equality: not a guard
     return out
 
